@@ -14,25 +14,38 @@ Interleaving semantics of the two threads of fake_trx over the world model (Mode
                                wait and store `wait` — ONE action                          lock → loop
                     fwd-begin  `forward_msg(self, msg)` for the next emitted message: read the
                                sender's frequency and `rf_muted`                           loop → fwd
-                    fwd-to     one recipient of the loop in `forward_msg`: read its `running`,
-                               frequency, header version, `handle_data_msg`                fwd → fwd
+                    fwd-read   one recipient of the loop in `forward_msg`: `trx == src_trx`, read
+                               its `running`, frequency (`get_rx_freq`), header version
+                               (`data_if._hdr_ver`), build `tx_msg = rx_msg.trans(ver)`    fwd → fwd | hdl
+                    fwd-handle `trx.handle_data_msg(src_trx, rx_msg, tx_msg)` of that
+                               recipient, with the `tx_msg` built by fwd-read              hdl → fwd
                     fwd-end    recipients exhausted                                        fwd → loop
                     stale      one `log.warning("Stale TRXD message")`                     loop → loop
                     done       `clck_tick` returns                                         loop → next
-                    incr       `clck_src = (clck_src + 1) % GSM_HYPERFRAME`                next → idle
+                    incr       `clck_src = (clck_src + 1) % GSM_HYPERFRAME` (the attribute
+                               is read again)                                              next → idle
                   An exception leaving any of these ends the thread (`dead`).
 The functions used are the ones of the world model (`classify`, `setTrx`, `Trx.getTxFreq`,
 `Trx.getRxFreq`, `TxMsg.trans`, `handleDataMsg`, `step`); `Lemmas/WorldSched.lean` proves that a tick
 run without interference is `World.tick`.
 
+The boundaries at which `harness/py/sched_harness.py` can park the real clock thread are boundaries
+between two of these actions (`boundaries` below): pre-tick(j) = `next fn (j :: js)`, pre-lock(j) =
+`lock fn j js`, post-lock(j) = the `loop` state the locked section leaves, pre-forward = `loop` with a
+non-empty `emit`, pre-handle(k) = `hdl … k …`.  The model has more boundaries than the harness forces
+(between two recipients, around the stale reports, before `incr`).
+
 A schedule is a list of actions (`Act`): between any two atomic actions of the clock thread the
 socket thread may execute any number of complete operations (the property's quantifier — ONE
 arrival / power command racing ONE tick — is the special case of one `sock` action in the list).
 
-Outside the model: preemption INSIDE one of the atomic actions above (inside a Python statement,
-e.g. between the two loads of `self.fh` that finding F14 was about), OS scheduling and time; the
-`stop()`/`join()` of the clock thread at the last POWEROFF (the model allows more schedules than the
-real program: the socket thread is never blocked).  No Mathlib.
+Outside the model: preemption INSIDE one of the atomic actions above — inside a Python statement
+(e.g. between the two loads of `self.fh` that finding F14 was about), between the statements one
+action stands for (fwd-begin: `get_tx_freq` then `rf_muted`; fwd-read: `running`, `get_rx_freq`,
+`_hdr_ver`; the statements of `handle_data_msg`), and inside an operation of the socket thread (a
+socket operation is ONE action; the harness, too, runs it to completion while the clock thread is
+parked); OS scheduling and time; the `stop()`/`join()` of the clock thread at the last POWEROFF (the
+model allows more schedules than the real program: the socket thread is never blocked).  No Mathlib.
 -/
 import OsmoVerif.Model.World
 
@@ -56,6 +69,11 @@ inductive Pc
   (`mfn` = `msg.fn`) -/
   | fwd (fn : Nat) (j : Nat) (msg : Trxd.TxMsg) (mfn : Nat) (txFreq : Option Int) (ks : List Nat)
       (emit drop : List Trxd.TxMsg) (js : List Nat)
+  /-- inside the recipient loop of `forward_msg(src = j, msg)`: recipient `k` has passed the checks
+  (its `running`, frequency and header version have been read) and `tx_msg = rx` has been built;
+  about to call `k.handle_data_msg(j, msg, rx)` -/
+  | hdl (fn : Nat) (j : Nat) (msg : Trxd.TxMsg) (mfn : Nat) (txFreq : Option Int) (k : Nat)
+      (rx : Trxd.RxMsg) (ks : List Nat) (emit drop : List Trxd.TxMsg) (js : List Nat)
 deriving DecidableEq
 
 /-- global state: the world (shared objects), the clock thread's control state, and what the
@@ -78,10 +96,11 @@ def clockInds (w : World) (fn : Nat) : List Dgram :=
        PyStr.encodeUtf8 (PyStr.lit "IND CLOCK " ++ PyStr.natDigits fn ++ [0])⟩))
   else []
 
-/-- one iteration of the recipient loop of `forward_msg(src = j, msg)` for recipient `k`:
-`none` = `continue` (nothing happens), otherwise the outcome of `handle_data_msg` -/
-def fwdTo (w : World) (j : Nat) (msg : Trxd.TxMsg) (mfn : Nat) (txFreq : Option Int) (k : Nat) :
-    Except Exc (Option (World × List Dgram)) :=
+/-- the reads of one iteration of the recipient loop of `forward_msg(src = j, msg)` for recipient
+`k` (`if trx == src_trx` … `tx_msg = rx_msg.trans(ver = trx.data_if._hdr_ver)`):
+`none` = `continue`, `some rx` = the recipient is served, with the translated message `rx` -/
+def fwdRead (w : World) (j : Nat) (msg : Trxd.TxMsg) (mfn : Nat) (txFreq : Option Int) (k : Nat) :
+    Except Exc (Option Trxd.RxMsg) :=
   if k = j then .ok none else
   match w.trxs[k]? with
   | none => .error .indexError
@@ -93,10 +112,7 @@ def fwdTo (w : World) (j : Nat) (msg : Trxd.TxMsg) (mfn : Nat) (txFreq : Option 
       if rxFreq ≠ txFreq then .ok none else
       match msg.trans (some trx.hdrVer) with
       | .error e => .error (ofTrxdExc e)
-      | .ok rx =>
-        match handleDataMsg w k j msg rx with
-        | .error e => .error e
-        | .ok (w, ds) => .ok (some (w, ds))
+      | .ok rx => .ok (some rx)
 
 /-- one atomic action of the clock thread -/
 def clockStep (s : State) : State :=
@@ -107,8 +123,11 @@ def clockStep (s : State) : State :=
     | none => { s with pc := .dead .attributeError }
     | some fn => { s with out := s.out ++ clockInds s.w fn, pc := .next fn (List.range s.w.trxs.length) }
   | .dead _ => s
-  | .next fn [] =>
-    { s with w := { s.w with clkSrc := some ((fn + 1) % Gen.World.hyperframe) }, pc := .idle }
+  | .next _ [] =>
+    -- `self.clck_src = (self.clck_src + 1) % GSM_HYPERFRAME`
+    match s.w.clkSrc with
+    | none => { s with pc := .dead .attributeError }
+    | some c => { s with w := { s.w with clkSrc := some ((c + 1) % Gen.World.hyperframe) }, pc := .idle }
   | .next fn (j :: js) =>
     match s.w.trxs[j]? with
     | none => { s with pc := .dead .indexError }
@@ -137,10 +156,14 @@ def clockStep (s : State) : State :=
   | .loop fn _ [] [] js => { s with pc := .next fn js }
   | .fwd fn j _ _ _ [] emit drop js => { s with pc := .loop fn j emit drop js }
   | .fwd fn j msg mfn txFreq (k :: ks) emit drop js =>
-    match fwdTo s.w j msg mfn txFreq k with
+    match fwdRead s.w j msg mfn txFreq k with
     | .error e => { s with pc := .dead e }
     | .ok none => { s with pc := .fwd fn j msg mfn txFreq ks emit drop js }
-    | .ok (some (w, ds)) =>
+    | .ok (some rx) => { s with pc := .hdl fn j msg mfn txFreq k rx ks emit drop js }
+  | .hdl fn j msg mfn txFreq k rx ks emit drop js =>
+    match handleDataMsg s.w k j msg rx with
+    | .error e => { s with pc := .dead e }
+    | .ok (w, ds) =>
       { s with w := w, out := s.out ++ ds, pc := .fwd fn j msg mfn txFreq ks emit drop js }
 
 /-- one complete operation of the socket thread -/
@@ -180,5 +203,17 @@ def Reachable (s0 s : State) : Prop := ∃ acts, exec s0 acts = s
 def clockRun (s : State) : Nat → State
   | 0 => s
   | n + 1 => clockRun (clockStep s) n
+
+/-- the boundaries of `harness/py/sched_harness.py` the clock thread is standing at in control state
+`pc` (`afterLock` = the previous action was a locked section), in the order the harness counts them:
+pre-tick | pre-lock | post-lock, pre-forward | pre-handle -/
+def boundaries (pc : Pc) (afterLock : Bool) : List String :=
+  match pc with
+  | .next _ (_ :: _) => ["pre-tick"]
+  | .lock .. => ["pre-lock"]
+  | .loop _ _ emit _ _ =>
+    (if afterLock then ["post-lock"] else []) ++ (if emit.isEmpty then [] else ["pre-forward"])
+  | .hdl .. => ["pre-handle"]
+  | _ => []
 
 end OsmoVerif.World.Sched
